@@ -172,7 +172,7 @@ Proof.
     destruct (started s); [apply erase_worker_step|reflexivity].
 Qed.
 
-Lemma erase_step_raise s : erase (step s CallbackRaises) = erase s.
+Lemma erase_step_raise s c : erase (step s (CallbackRaises c)) = erase s.
 Proof. destruct s; reflexivity. Qed.
 
 Lemma erase_run ls : forall s, erase (run s ls) = run (erase s) (filter (fun l => negb (is_raise l)) ls).
@@ -854,7 +854,7 @@ Proof.
   all: try (intros H; rewrite count_pd_fire; apply Idw; exact H).
 Qed.
 
-Lemma invA_raise s : InvA s -> InvA (step s CallbackRaises).
+Lemma invA_raise s c : InvA s -> InvA (step s (CallbackRaises c)).
 Proof.
   intros I. pose proof I as [Ipre Iabs Ikids Idw Iver Iwat Ifresh Iwi Ie1]. cbn [step].
   apply (invA_env s); try reflexivity; sp; auto; env_fin Ipre Idw.
@@ -1191,7 +1191,7 @@ Proof.
     rewrite Be2. reflexivity.
 Qed.
 
-Lemma invB_raise s : InvB s -> InvB (step s CallbackRaises).
+Lemma invB_raise s c : InvB s -> InvB (step s (CallbackRaises c)).
 Proof. intros [Bal Bpd Bse Be2]. cbn [step]. split; sp; assumption. Qed.
 
 Lemma invB_worker h s : InvA s -> InvB s -> InvB (step s (WorkerStep h)).
